@@ -3,6 +3,8 @@
 //! After every mutating call a full dump through the public API follows (see `dump`).
 use crate::common::*;
 use crate::rng::Rng;
+#[path = "c02laws.rs"]
+mod laws;
 use petgraph::data::{Build, Create, DataMap, DataMapMut, Element, FromElements};
 use petgraph::graph::{Graph, GraphError};
 use petgraph::stable_graph::{EdgeIndex, IndexType, NodeIndex, StableGraph};
@@ -63,6 +65,9 @@ struct Run<'a, Ty: EdgeType, Ix: IndexType> {
     next_w: i64,
     /// skip the dump (fill-up phases dump every n-th call only)
     quiet: bool,
+    /// the bookkeeping of the graph has been seen to be inconsistent (the driver has reported it at the dump): the case
+    /// ends here — calls on a corrupt graph may not terminate, and a killed harness loses its buffered output
+    dead: bool,
 }
 
 /// `StableGraph::new()` exists for `Directed`/`u32` only: `Some` exactly for that instantiation
@@ -72,7 +77,7 @@ fn try_new<Ty: EdgeType + 'static, Ix: IndexType>() -> Option<G<Ty, Ix>> {
     b.downcast::<G<Ty, Ix>>().ok().map(|b| *b)
 }
 
-impl<'a, Ty: EdgeType + 'static, Ix: IndexType> Run<'a, Ty, Ix> {
+impl<'a, Ty: laws::LTy, Ix: IndexType> Run<'a, Ty, Ix> {
     fn w(&mut self) -> i64 {
         self.next_w += 1;
         self.next_w
@@ -121,10 +126,28 @@ impl<'a, Ty: EdgeType + 'static, Ix: IndexType> Run<'a, Ty, Ix> {
     // the dump: the whole graph as seen through the public API
 
     fn dump(&mut self) {
-        if self.quiet {
+        if self.dead {
+            return;
+        }
+        let alive = self.check_alive();
+        if self.quiet && alive {
             return;
         }
         self.dump_now();
+        if !alive {
+            self.dead = true;
+            self.quiet = false;
+            self.ctx.line("note the harness found the bookkeeping inconsistent and ends the case", "ok");
+            use std::io::Write;
+            let _ = self.ctx.out.flush();
+        }
+    }
+
+    /// cheap self-consistency of the bookkeeping (counts = what the iterators yield, every live edge hangs in the lists of
+    /// its live endpoints); when it fails, the dump that follows shows it to the driver and the case ends (calls on a corrupt
+    /// graph may not terminate, and a killed harness loses its buffered output)
+    fn check_alive(&self) -> bool {
+        laws::consistent(&self.g)
     }
 
     fn dump_now(&mut self) {
@@ -366,12 +389,54 @@ impl<'a, Ty: EdgeType + 'static, Ix: IndexType> Run<'a, Ty, Ix> {
             format!("{}|{}|{}", ws, es, nbs)
         }));
         self.ctx.line("d.tograph", &l);
+        // `Debug` shows the counts, every live element and the heads of the two vacancy lists
+        if nb <= 40 && eb <= 60 {
+            let l = p(catch(|| format!("{:?}", g)));
+            self.ctx.line("d.dbg", &l);
+        }
+    }
+
+    // ------------------------------------------------------------------------------------------
+    // laws (wave 6): the corners of the API that have no state of their own, judged in the harness (c02laws.rs)
+
+    fn laws(&mut self) {
+        if self.dead {
+            return;
+        }
+        let nodes = laws::sample_nodes(&mut self.rng, &self.g);
+        let tag = list(nodes.iter());
+        let ctx = &mut *self.ctx;
+        let g = &mut self.g;
+        laws::run_law(ctx, "iters_global", || laws::law_iters_global(g));
+        let g = &self.g;
+        laws::run_law(ctx, &format!("iters_adj {}", tag), || laws::law_iters_adj(g, &nodes));
+        laws::run_law(ctx, &format!("trait_views {}", tag), || laws::law_trait_views(g, &nodes));
+        laws::run_law(ctx, "index_reads", || laws::law_index_reads(g));
+        laws::run_law(ctx, "debug_fmt", || laws::law_debug_fmt(g, &nodes));
+        let rng = &mut self.rng;
+        laws::run_law(ctx, "visit_map", || laws::law_visit_map(rng, g));
+        laws::run_law(ctx, "adjacency_matrix", || laws::law_adjacency_matrix(g));
+        laws::run_law(ctx, "clone", || laws::law_clone(rng, g));
+        let g = &mut self.g;
+        laws::run_law(ctx, &format!("frozen_view {}", tag), || laws::law_frozen_view(g, &nodes));
+    }
+
+    fn maybe_laws(&mut self, pct: u32) {
+        if self.dead {
+            return;
+        }
+        if !self.quiet && self.rng.chance(pct) {
+            self.laws();
+        }
     }
 
     // ------------------------------------------------------------------------------------------
     // operations
 
     fn op_add_node(&mut self, try_: bool) {
+        if self.dead {
+            return;
+        }
         let w = self.w();
         let via_trait = self.rng.chance(25);
         if try_ {
@@ -391,6 +456,9 @@ impl<'a, Ty: EdgeType + 'static, Ix: IndexType> Run<'a, Ty, Ix> {
     }
 
     fn op_add_edge(&mut self, kind: usize, a: usize, b: usize) {
+        if self.dead {
+            return;
+        }
         let w = self.w();
         let (na, nb) = (ni::<Ix>(a), ni::<Ix>(b));
         let via_trait = self.rng.chance(25);
@@ -412,6 +480,9 @@ impl<'a, Ty: EdgeType + 'static, Ix: IndexType> Run<'a, Ty, Ix> {
     }
 
     fn op_remove_node(&mut self, a: usize) {
+        if self.dead {
+            return;
+        }
         let r = catch(|| self.g.remove_node(ni(a)));
         let s = match r {
             Some(Some(w)) => format!("some {}", w),
@@ -423,6 +494,9 @@ impl<'a, Ty: EdgeType + 'static, Ix: IndexType> Run<'a, Ty, Ix> {
     }
 
     fn op_remove_edge(&mut self, e: usize) {
+        if self.dead {
+            return;
+        }
         let r = catch(|| self.g.remove_edge(ei(e)));
         let s = match r {
             Some(Some(w)) => format!("some {}", w),
@@ -434,6 +508,9 @@ impl<'a, Ty: EdgeType + 'static, Ix: IndexType> Run<'a, Ty, Ix> {
     }
 
     fn op_weight(&mut self, which: usize) {
+        if self.dead {
+            return;
+        }
         let w = self.w();
         match which {
             0 => {
@@ -487,6 +564,9 @@ impl<'a, Ty: EdgeType + 'static, Ix: IndexType> Run<'a, Ty, Ix> {
     }
 
     fn op_index_twice(&mut self) {
+        if self.dead {
+            return;
+        }
         let kind = self.rng.below(4);
         let (w1, w2) = (self.w(), self.w());
         let same = self.rng.chance(12);
@@ -532,6 +612,9 @@ impl<'a, Ty: EdgeType + 'static, Ix: IndexType> Run<'a, Ty, Ix> {
     }
 
     fn op_bump(&mut self, nodes: bool) {
+        if self.dead {
+            return;
+        }
         let c = self.rng.range(1, 3) * 1000;
         if nodes {
             for x in self.g.node_weights_mut() {
@@ -548,21 +631,36 @@ impl<'a, Ty: EdgeType + 'static, Ix: IndexType> Run<'a, Ty, Ix> {
     }
 
     fn op_simple(&mut self, which: usize) {
+        if self.dead {
+            return;
+        }
         let g = &mut self.g;
         let (name, r) = match which {
             0 => ("reverse", catch(|| g.reverse())),
             1 => ("clear", catch(|| g.clear())),
             2 => ("clear_edges", catch(|| g.clear_edges())),
             3 => ("clone", catch(|| *g = g.clone())),
-            _ => (
-                "clone_from",
-                catch(|| {
-                    let mut h: G<Ty, Ix> = StableGraph::default();
-                    h.add_node(-1);
-                    h.clone_from(g);
-                    *g = h;
-                }),
-            ),
+            _ => {
+                // the prior value of the target is ANY graph: empty, smaller, larger, with vacancies of its own
+                let mut h: G<Ty, Ix> = laws::random_prior(&mut self.rng, g.node_bound());
+                let r = catch(|| h.clone_from(g));
+                // the result replaces the graph under test — unless it is already visibly different from the source (reported
+                // as a law violation; a graph with stale free lists must not be used any further, calls on it may not return)
+                let same = catch(|| {
+                    let (x, y) = (laws::fingerprint(&h), laws::fingerprint(g));
+                    if x == y {
+                        None
+                    } else {
+                        Some(format!("clone_from into a graph with other contents differs from its source: {}", laws::first_diff(&x, &y)))
+                    }
+                });
+                match same {
+                    Some(None) => *g = h,
+                    Some(why) => self.ctx.line("law clone_from", &crate::iterlaws::law_verdict(why)),
+                    None => self.ctx.line("law clone_from", "VIOLATED observing the result of clone_from panics"),
+                }
+                ("clone_from", r)
+            }
         };
         self.ctx.line(name, if r.is_some() { "ok" } else { "panic" });
         self.dump();
@@ -573,32 +671,56 @@ impl<'a, Ty: EdgeType + 'static, Ix: IndexType> Run<'a, Ty, Ix> {
     }
 
     fn op_retain(&mut self, nodes: bool) {
+        if self.dead {
+            return;
+        }
         let pct = *self.rng.pick(&[0u32, 15, 35, 60, 100]);
+        // `c != 0`: the closure adds `c` to the weight of every element it is shown (`IndexMut` of the `Frozen` proxy)
+        let c: i64 = if self.rng.chance(40) { self.rng.range(1, 3) * 1_000_000 } else { 0 };
+        // what the closure sees through the proxy must be the graph: the element it is asked about is (still) there
+        let mut seen_wrong: Option<String> = None;
         if nodes {
             let rm = self.subset(self.g.node_bound(), pct);
             let mut vis = vec![];
             let g = &mut self.g;
-            let r = catch(|| g.retain_nodes(|fz, ix| {
-                let _ = fz[ix]; // the frozen proxy gives read access
+            let r = catch(|| g.retain_nodes(|mut fz, ix| {
+                let w = fz[ix]; // the frozen proxy gives read access
+                if !fz.contains_node(ix) || fz.node_weight(ix) != Some(&w) || NodeCount::node_count(&fz) != fz.node_count() {
+                    seen_wrong = Some(format!("retain_nodes: the proxy does not show node {} as live", ix.index()));
+                }
+                if c != 0 {
+                    fz[ix] += c;
+                }
                 vis.push(ix.index());
                 !rm.contains(&ix.index())
             }));
-            self.ctx.line(&format!("retain_nodes {}", list(rm.iter())), &if r.is_some() { list(vis) } else { "panic".into() });
+            self.ctx.line(&format!("retain_nodes {} {}", list(rm.iter()), c), &if r.is_some() { list(vis) } else { "panic".into() });
         } else {
             let rm = self.subset(self.g.edge_bound(), pct);
             let mut vis = vec![];
             let g = &mut self.g;
-            let r = catch(|| g.retain_edges(|fz, ix| {
-                let _ = fz[ix];
+            let r = catch(|| g.retain_edges(|mut fz, ix| {
+                let w = fz[ix];
+                let ends = fz.edge_endpoints(ix);
+                if fz.edge_weight(ix) != Some(&w) || !ends.map_or(false, |(a, b)| fz.contains_node(a) && fz.contains_node(b)) {
+                    seen_wrong = Some(format!("retain_edges: the proxy does not show edge {} as a live edge between live nodes", ix.index()));
+                }
+                if c != 0 {
+                    fz[ix] += c;
+                }
                 vis.push(ix.index());
                 !rm.contains(&ix.index())
             }));
-            self.ctx.line(&format!("retain_edges {}", list(rm.iter())), &if r.is_some() { list(vis) } else { "panic".into() });
+            self.ctx.line(&format!("retain_edges {} {}", list(rm.iter()), c), &if r.is_some() { list(vis) } else { "panic".into() });
         }
+        self.ctx.line("law retain_proxy", &crate::iterlaws::law_verdict(seen_wrong));
         self.dump();
     }
 
     fn op_map(&mut self) {
+        if self.dead {
+            return;
+        }
         let cn = self.rng.range(1, 3) * 10000;
         let ce = self.rng.range(1, 3) * 10000;
         let (mut vn, mut ve) = (vec![], vec![]);
@@ -626,6 +748,9 @@ impl<'a, Ty: EdgeType + 'static, Ix: IndexType> Run<'a, Ty, Ix> {
     }
 
     fn op_filter_map(&mut self) {
+        if self.dead {
+            return;
+        }
         let pn = *self.rng.pick(&[0u32, 10, 30, 60]);
         let pe = *self.rng.pick(&[0u32, 10, 30, 60]);
         let dn = self.subset(self.g.node_bound(), pn);
@@ -667,6 +792,9 @@ impl<'a, Ty: EdgeType + 'static, Ix: IndexType> Run<'a, Ty, Ix> {
 
     /// `extend_with_edges` (or `from_edges` when `fresh`); node indices may name vacant slots and leave gaps
     fn op_extend(&mut self, fresh: bool) {
+        if self.dead {
+            return;
+        }
         let nb = if fresh { 0 } else { self.g.node_bound() };
         let n = 1 + self.rng.below(4);
         let hi = self.cap(nb + 4);
@@ -685,6 +813,10 @@ impl<'a, Ty: EdgeType + 'static, Ix: IndexType> Run<'a, Ty, Ix> {
             let b = if self.rng.chance(15) { a } else { pick(&mut self.rng) };
             let w = self.w();
             l.push((a, b, w));
+        }
+        if !self.quiet && self.rng.chance(35) {
+            let g = &self.g;
+            laws::run_law(self.ctx, &format!("extend_forms {} {}", if fresh { 1 } else { 0 }, triples(&l)), || laws::law_extend_forms(g, &l, fresh));
         }
         let before: Vec<usize> = if fresh { vec![] } else { self.live_edges() };
         let items: Vec<(Ix, Ix, i64)> = l.iter().map(|&(a, b, w)| (Ix::new(a), Ix::new(b), w)).collect();
@@ -715,6 +847,9 @@ impl<'a, Ty: EdgeType + 'static, Ix: IndexType> Run<'a, Ty, Ix> {
     }
 
     fn op_compact(&mut self) {
+        if self.dead {
+            return;
+        }
         let g = std::mem::take(&mut self.g);
         let r = catch(|| {
             let pg: Graph<i64, i64, Ty, Ix> = Graph::from(g);
@@ -733,6 +868,9 @@ impl<'a, Ty: EdgeType + 'static, Ix: IndexType> Run<'a, Ty, Ix> {
     /// `FromElements::from_elements`: nodes get the index of their appearance; an edge naming a node that has not been
     /// created (≈ 8 % of the element lists) or exhausting the index type (u8, rarely) is the documented panic
     fn op_from_elements(&mut self) {
+        if self.dead {
+            return;
+        }
         let maxix = self.maxix;
         let big = maxix == 255 && self.rng.chance(5);
         let n_el = if big { 250 + self.rng.below(12) } else { self.rng.below(14) };
@@ -778,6 +916,9 @@ impl<'a, Ty: EdgeType + 'static, Ix: IndexType> Run<'a, Ty, Ix> {
     }
 
     fn op_new(&mut self) {
+        if self.dead {
+            return;
+        }
         match self.rng.below(9) {
             6 | 7 => self.op_from_elements(),
             8 => {
@@ -795,7 +936,8 @@ impl<'a, Ty: EdgeType + 'static, Ix: IndexType> Run<'a, Ty, Ix> {
                 self.dump();
             }
             0 => {
-                self.g = StableGraph::with_capacity(self.rng.below(9), self.rng.below(9));
+                let (cn, ce) = (*self.rng.pick(&[0usize, 1, 8, 255, 256, 300]), *self.rng.pick(&[0usize, 1, 8, 255, 256, 300]));
+                self.g = StableGraph::with_capacity(self.rng.below(9) + cn, self.rng.below(9) + ce);
                 self.ctx.line("new with_capacity", "ok");
                 self.dump();
             }
@@ -835,6 +977,9 @@ impl<'a, Ty: EdgeType + 'static, Ix: IndexType> Run<'a, Ty, Ix> {
 
     /// a `try_add_edge`/`try_update_edge` that must fail: vacant, out-of-range or `end()` endpoint
     fn op_failing_edge(&mut self) {
+        if self.dead {
+            return;
+        }
         let good = self.node_arg(100);
         let bad = self.node_arg(0);
         let (a, b) = match self.rng.below(3) {
@@ -846,7 +991,116 @@ impl<'a, Ty: EdgeType + 'static, Ix: IndexType> Run<'a, Ty, Ix> {
         self.op_add_edge(kind, a, b);
     }
 
+    /// rarely combined call sequences: a whole-graph call and then re-use of what it left behind
+    fn op_combo(&mut self) {
+        if self.dead {
+            return;
+        }
+        let k = self.rng.below(8);
+        self.ctx.line(&format!("family combo{}", k), "ok");
+        let reuse = |r: &mut Self| {
+            for _ in 0..(2 + r.rng.below(3)) {
+                r.op_add_node(true);
+            }
+            for _ in 0..(2 + r.rng.below(4)) {
+                let a = r.node_arg(95);
+                let b = if r.rng.chance(25) { a } else { r.node_arg(95) };
+                r.op_add_edge(0, a, b);
+            }
+        };
+        match k {
+            0 => {
+                // clear, then re-use
+                self.op_simple(1);
+                reuse(self);
+            }
+            1 => {
+                // clear_edges, then re-use the (reset) edge vacancies and remove nodes
+                self.op_simple(2);
+                reuse(self);
+                let a = self.node_arg(100);
+                self.op_remove_node(a);
+            }
+            2 => {
+                // reverse, then remove and re-add
+                self.op_simple(0);
+                let a = self.node_arg(100);
+                self.op_remove_node(a);
+                let e = self.edge_arg(100);
+                self.op_remove_edge(e);
+                reuse(self);
+                self.op_simple(0);
+            }
+            3 => {
+                // clone_from an arbitrary prior, then mutate
+                self.op_simple(4);
+                let e = self.edge_arg(100);
+                self.op_remove_edge(e);
+                reuse(self);
+            }
+            4 => {
+                // retain nothing / everything, then re-use
+                let which = self.rng.chance(50);
+                self.op_retain(which);
+                reuse(self);
+                self.op_retain(!which);
+            }
+            5 => {
+                // Graph round trip, then vacancies again
+                self.op_compact();
+                let a = self.node_arg(100);
+                self.op_remove_node(a);
+                reuse(self);
+            }
+            6 => {
+                // filter_map / map, then re-use
+                self.op_filter_map();
+                reuse(self);
+                self.op_map();
+            }
+            _ => {
+                // self-loops together with parallel edges at one node, then remove them one by one
+                let a = self.node_arg(100);
+                let b = self.node_arg(100);
+                let mut mine = vec![];
+                for j in 0..(4 + self.rng.below(4)) {
+                    let (x, y) = match j % 3 {
+                        0 => (a, a),
+                        1 => (a, b),
+                        _ => (b, a),
+                    };
+                    let before = self.live_edges();
+                    self.op_add_edge(if j % 2 == 0 { 0 } else { 1 }, x, y);
+                    mine.extend(self.live_edges().into_iter().filter(|e| !before.contains(e)));
+                }
+                self.laws();
+                self.rng.shuffle(&mut mine);
+                for e in mine.into_iter().take(3) {
+                    self.op_remove_edge(e);
+                }
+                let (x, y) = (a, b);
+                self.op_add_edge(2, x, y);
+                self.op_add_edge(3, x, x);
+            }
+        }
+        self.laws();
+    }
+
     fn random_op(&mut self, weights: &[u32]) {
+        if self.dead {
+            return;
+        }
+        self.random_op_inner(weights);
+        self.maybe_laws(7);
+    }
+
+    fn random_op_inner(&mut self, weights: &[u32]) {
+        if self.dead {
+            return;
+        }
+        if self.rng.chance(3) {
+            return self.op_combo();
+        }
         match self.rng.weighted(weights) {
             0 => self.op_add_node(true),
             1 => self.op_add_node(false),
@@ -887,6 +1141,9 @@ impl<'a, Ty: EdgeType + 'static, Ix: IndexType> Run<'a, Ty, Ix> {
 
     /// make sure there are at least two vacant nodes and two vacant edges
     fn make_vacancies(&mut self) {
+        if self.dead {
+            return;
+        }
         for _ in 0..(6 + self.rng.below(5)) {
             self.op_add_node(true);
         }
@@ -911,9 +1168,11 @@ const W_BUILD: [u32; 27] = [18, 8, 20, 8, 5, 3, 3, 3, 2, 2, 1, 1, 1, 1, 1, 1, 0,
 const W_CHURN: [u32; 27] = [6, 3, 8, 3, 3, 2, 14, 14, 2, 2, 1, 1, 2, 1, 1, 3, 1, 2, 2, 4, 4, 2, 4, 4, 2, 6, 2];
 const W_MIXED: [u32; 27] = [10, 4, 12, 5, 4, 2, 7, 7, 2, 2, 1, 1, 2, 1, 1, 3, 1, 2, 2, 3, 3, 2, 3, 4, 2, 5, 2];
 /// after vacancies exist: the calls whose interplay with the free lists is the point of C02
+/// at most a couple of nodes: self-loops and parallel edges pile up on them, the graph is often empty or a single node
+const W_TINY: [u32; 27] = [2, 1, 14, 5, 4, 3, 3, 9, 1, 1, 1, 1, 2, 1, 1, 3, 1, 2, 2, 2, 3, 1, 2, 1, 2, 2, 1];
 const W_VACANT: [u32; 27] = [8, 3, 8, 3, 2, 1, 3, 3, 0, 0, 0, 0, 0, 0, 0, 10, 0, 8, 2, 8, 8, 3, 8, 10, 4, 10, 0];
 
-fn run_case<Ty: EdgeType + 'static, Ix: IndexType>(ctx: &mut Ctx, rng: Rng, case: u64, w: u32) {
+fn run_case<Ty: laws::LTy, Ix: IndexType>(ctx: &mut Ctx, rng: Rng, case: u64, w: u32) {
     let thorough = ctx.tier_thorough;
     ctx.raw(&format!(
         "case {} dir={} w={} debug={}",
@@ -929,6 +1188,7 @@ fn run_case<Ty: EdgeType + 'static, Ix: IndexType>(ctx: &mut Ctx, rng: Rng, case
         maxix: <Ix as IndexType>::max().index(),
         next_w: 0,
         quiet: false,
+        dead: false,
     };
     // constructor
     if r.rng.chance(60) {
@@ -938,19 +1198,41 @@ fn run_case<Ty: EdgeType + 'static, Ix: IndexType>(ctx: &mut Ctx, rng: Rng, case
     } else {
         r.op_new();
     }
+    // ---- laws of the constructors and of the element-stream helpers (no graph state involved)
+    if r.rng.chance(25) {
+        let nw = try_new::<Ty, Ix>();
+        let rng = &mut r.rng;
+        laws::run_law(r.ctx, "constructors", || laws::law_constructors::<Ty, Ix>(rng, nw));
+    }
+    if r.rng.chance(15) {
+        let rng = &mut r.rng;
+        laws::run_law(r.ctx, "filter_elements", || laws::law_filter_elements::<Ty, Ix>(rng));
+    }
+    if r.rng.chance(if thorough { 4 } else { 2 }) {
+        let rng = &mut r.rng;
+        laws::run_law(r.ctx, "u16_limit", || laws::law_u16_limit::<Ty>(rng));
+    }
+    // the empty graph (whatever constructor made it)
+    r.maybe_laws(30);
     let scale = if thorough { 2 } else { 1 };
     let family = r.rng.below(100);
     if w == 8 && family < 22 {
+        r.ctx.line("family fill", "ok");
         // ---- u8 fill-up: reach the index limit for nodes and for edges, then keep going
         r.quiet = true;
         let target = 255;
         let mut i = 0;
-        while r.g.node_count() < target && i < 300 {
+        while r.g.node_count() < target - 1 && i < 300 {
             r.op_add_node(i % 3 != 0);
             i += 1;
         }
         r.quiet = false;
+        // one below the limit
         r.dump_now();
+        r.laws();
+        r.op_add_node(i % 3 != 0);
+        // exactly at the limit
+        r.laws();
         r.op_add_node(true); // must fail
         r.op_add_node(false); // must panic
         r.op_add_node(true);
@@ -966,7 +1248,7 @@ fn run_case<Ty: EdgeType + 'static, Ix: IndexType>(ctx: &mut Ctx, rng: Rng, case
         r.quiet = true;
         let hubs: Vec<usize> = (0..(3 + r.rng.below(6))).map(|_| r.node_arg(100)).collect();
         let mut j = 0;
-        while r.g.edge_count() < 255 && j < 300 {
+        while r.g.edge_count() < 254 && j < 300 {
             let a = *r.rng.pick(&hubs);
             let b = *r.rng.pick(&hubs);
             r.op_add_edge(if j % 4 == 0 { 1 } else { 0 }, a, b);
@@ -974,6 +1256,13 @@ fn run_case<Ty: EdgeType + 'static, Ix: IndexType>(ctx: &mut Ctx, rng: Rng, case
         }
         r.quiet = false;
         r.dump_now();
+        r.laws();
+        {
+            let a = *r.rng.pick(&hubs);
+            let b = *r.rng.pick(&hubs);
+            r.op_add_edge(0, a, b);
+        }
+        r.laws();
         let (a, b) = (hubs[0], hubs[hubs.len() - 1]);
         r.op_add_edge(0, a, b); // EdgeIxLimit
         r.op_add_edge(1, a, b); // panic
@@ -993,19 +1282,38 @@ fn run_case<Ty: EdgeType + 'static, Ix: IndexType>(ctx: &mut Ctx, rng: Rng, case
         for _ in 0..(6 * scale) {
             r.random_op(&W_VACANT);
         }
+        r.laws();
         return;
     }
-    if family < 50 {
+    if (22..30).contains(&family) {
+        // ---- tiny graphs: empty, one node, two nodes; self-loops and parallel edges pile up
+        r.ctx.line("family tiny", "ok");
+        r.laws();
+        for _ in 0..(1 + r.rng.below(2)) {
+            r.op_add_node(true);
+        }
+        r.laws();
+        for _ in 0..((14 + r.rng.below(14)) * scale) {
+            r.random_op(&W_TINY);
+        }
+        r.laws();
+        return;
+    }
+    if family < 55 {
+        r.ctx.line("family vacancy", "ok");
         // ---- vacancy-directed: ≥ 2 vacant nodes and edges, then the whole-graph calls and reuse
         r.make_vacancies();
+        r.laws();
         for _ in 0..((14 + r.rng.below(12)) * scale) {
             r.random_op(&W_VACANT);
         }
         for _ in 0..(4 + r.rng.below(6)) {
             r.random_op(&W_BUILD);
         }
+        r.laws();
         return;
     }
+    r.ctx.line("family general", "ok");
     // ---- general history in phases
     let phases = 2 + r.rng.below(3);
     for p in 0..phases {
@@ -1020,6 +1328,7 @@ fn run_case<Ty: EdgeType + 'static, Ix: IndexType>(ctx: &mut Ctx, rng: Rng, case
             r.random_op(wts);
         }
     }
+    r.laws();
 }
 
 pub fn run(ctx: &mut Ctx, case: u64) {
